@@ -41,6 +41,10 @@ SENSITIVITY = {
     "r2d": ("seeded/r2d/patch.diff", "C17", ["result-mismatch", "data-race", "reference-unstable"], "A: sibling build over shared storage"),
     "r2e": ("seeded/r2e/patch.diff", "C18", ["callback-invariant"], "A: accessor probes"),
     "r2f": ("seeded/r2f/patch.diff", "C18", ["wrong-target"], "A: target correspondence"),
+    "r3a": ("seeded/r3a/patch.diff", "C17", ["result-mismatch"], "A: long histories, knot queries"),
+    "r3b": ("seeded/r3b/patch.diff", "C17", ["result-mismatch"], "A via the numeric-type seam (Yf) + B (Miri)"),
+    "r3c": ("seeded/r3c/patch.diff", "C18", ["query-element-not-delivered"], "A: delivery of every query element"),
+    "r3d": ("seeded/r3d/patch.diff", "C18", ["query-element-not-delivered"], "A: delivery of every query element"),
 }
 
 BENIGN = {
